@@ -30,6 +30,9 @@ int cmp_cb(const void *a, const void *b, void *p)
 {
     CHECK_NOTHROW(p == &g_priv_token, "C08.cmp.priv", "compare function received a different priv pointer");
     int x = key_class(((const KeyCell *)a)->value), y = key_class(((const KeyCell *)b)->value);
+    // any negative / zero / positive int is a valid answer: differences, +-1, and values that do not fit a short or a char
+    if (g_cmp_kind == 3) return x < y ? -2000000000 : x > y ? 2000000000 : 0;
+    if (g_cmp_kind == 4) return (x > y) - (x < y);
     return g_cmp_kind == 1 ? y - x : x - y;
 }
 
@@ -335,7 +338,7 @@ void vf_run(const uint8_t *data, size_t len)
     MW.destroy();
     Cursor cur(data, len);
     int K = KEYS[cur.u8() % NKEYS];
-    g_cmp_kind = cur.u8() % 3;
+    g_cmp_kind = cur.u8() % 5;
     g_mod = 2 + cur.u8() % 5;
     size_t maxlive = MAXLIVE[cur.u8() % 8];
     int prof = cur.u8() % NPROFILES;
@@ -408,6 +411,7 @@ void vf_gen(Rng &r, std::vector<uint8_t> &out)
     out.push_back(r.chance(5, 6) ? 0 : r.byte());
     out.push_back(c16 ? 5 : c15 ? (r.chance(2, 3) ? 4 : r.byte()) : r.byte());
     size_t n = c16 ? 6 + r.below(10) : r.chance(3, 5) ? 1 + r.below(24) : r.chance(7, 8) ? 1 + r.below(200) : 1 + r.below(1000);
+    if (c16 && r.chance(1, 6)) { n = 40 + r.below(50); out[0] = 6 + (uint8_t)r.below(2); out[3] = 0; }   // long fill: dozens of nodes (pooled / slab allocators)
     if (!c15 && !c16 && r.chance(1, 30000)) { n = 60000 + r.below(60000); out[0] = 8; out[3] = 0; out[4] = 1; }   // scale run: tens of thousands of entries
     for (size_t i = 0; i < n; i++) { out.push_back(r.byte() % 251); out.push_back(r.byte()); out.push_back(r.byte()); }
 }
